@@ -5,7 +5,9 @@ from hypothesis import strategies as st
 
 from vf import gen
 from vf.core import Clause, Property, Violation
-from vf.osk import rate_values
+from vf.league import TwinLeague, twin_class
+from vf.osk import mk_model, rate_values
+from vf.stateful import machine_factory, replayer
 
 
 def _cmp(a, b, bucket, what):
@@ -85,11 +87,48 @@ def cases(draw):
     return g
 
 
+class _OptionTwin(TwinLeague):
+    """Side B plays every game through ONE long-lived model and passes (t, b) per call; side A plays it through a model newly constructed
+    with tau=t / limit_sigma=b (the model's own setting where the argument is omitted) and passes nothing.  The rating objects of both
+    sides live on through the history."""
+    WHAT = "percall-vs-model-level"
+
+    def side_calls(self, step):
+        t, b = step["t"], step["b"]
+        outcome = dict(step["frag"])
+        cfg_a = dict(self.cfg)
+        if t is not None:
+            cfg_a["tau"] = t
+        if b is not None:
+            cfg_a["limit_sigma"] = b
+        call_b = dict(outcome)
+        if t is not None:
+            call_b["tau"] = t
+        if b is not None:
+            call_b["limit_sigma"] = b
+        return [(mk_model(cfg_a), outcome), (self.models[1], call_b)]
+
+    @classmethod
+    def extra_step(cls, draw, h, n, classes):
+        beta = h.cfg["beta"]
+        frag, _ = draw(gen.encodings(classes, kinds=["int", "int_relabel", "scores", "omitted", "float"]))
+        t = draw(st.one_of(st.none(), st.sampled_from([0, 0.0, 1e-300, 1e-6 * beta, beta / 50.0, 2.0 * beta, 1, 2, h.cfg["tau"]]), st.floats(0.0, 2.0).map(lambda u: u * beta)))
+        return {"frag": frag, "t": t, "b": draw(st.sampled_from([None, True, False, True, False]))}
+
+
+OptionTwin = twin_class(_OptionTwin, "OptionTwin")
+
+
 PROPERTY = Property(
     pid="C15",
     clauses=[
         Clause(name="percall-vs-model-level", strategy=cases(), check=check_c15, quick=6000, thorough=120000,
                rule="non-trivial = per-call tau == 0 on a model with tau != 0, or per-call limit_sigma=False on a model built with True, or the clamp binds"),
+        Clause(name="option-twin-leagues", kind="stateful", machine=machine_factory(OptionTwin), check=replayer(OptionTwin),
+               quick=320, thorough=6000, steps_quick=25, steps_thorough=100,
+               rule="rule-based machine: twin leagues of 4-10 rating objects play the same games (objects fed back); side B through ONE long-lived model "
+                    "with (tau, limit_sigma) drawn per game and passed per call, side A through a model newly constructed with those settings and no "
+                    "arguments; all (mu, sigma) identical after every game; non-trivial = >= 6 games with some player in >= 3"),
     ],
     rule="generated (config incl. model-level tau/limit_sigma, game, outcome, per-call t in {0, 0.0, 1e-300, 1e-6 beta, default, 2 beta, ints, U(0,2) beta}, "
          "b in {True, False}); fresh model + fresh ratings on each side; results compared bit for bit; non-trivial = tau 0 override | False override | clamp binds; "
